@@ -13,10 +13,11 @@ use std::sync::atomic::{AtomicBool, AtomicUsize, Ordering};
 const TABLE_BITS: usize = 20;
 const TABLE_SIZE: usize = 1 << TABLE_BITS;
 const RING_SIZE: usize = 1 << 18;
-const TOMB: usize = 1;
 
 pub struct QAlloc {
     table: UnsafeCell<[usize; TABLE_SIZE]>,
+    /// addresses currently in quarantine (freed by the program, not yet returned to the system)
+    qtable: UnsafeCell<[usize; TABLE_SIZE]>,
     ring: UnsafeCell<[(usize, usize, usize); RING_SIZE]>,
 }
 // the harness is single threaded
@@ -28,32 +29,29 @@ pub static LIVE_BYTES: AtomicUsize = AtomicUsize::new(0);
 pub static QUARANTINE_SIZE: AtomicUsize = AtomicUsize::new(0);
 static RING_POS: AtomicUsize = AtomicUsize::new(0);
 pub static QUARANTINED: AtomicUsize = AtomicUsize::new(0);
+pub static DOUBLE_FREE: AtomicUsize = AtomicUsize::new(0);
 
 impl QAlloc {
     pub const fn new() -> Self {
-        QAlloc { table: UnsafeCell::new([0; TABLE_SIZE]), ring: UnsafeCell::new([(0, 0, 0); RING_SIZE]) }
+        QAlloc { table: UnsafeCell::new([0; TABLE_SIZE]), qtable: UnsafeCell::new([0; TABLE_SIZE]), ring: UnsafeCell::new([(0, 0, 0); RING_SIZE]) }
     }
     #[inline]
     fn slot(addr: usize) -> usize {
         (addr >> 4).wrapping_mul(0x9E37_79B9_7F4A_7C15) >> (64 - TABLE_BITS)
     }
     unsafe fn insert(&self, addr: usize) {
-        let t = &mut *self.table.get();
-        let mut i = Self::slot(addr);
-        loop {
-            if t[i] == 0 || t[i] == TOMB {
-                t[i] = addr;
-                return;
-            }
-            i = (i + 1) & (TABLE_SIZE - 1);
-        }
+        Self::t_insert(&mut *self.table.get(), addr)
     }
     unsafe fn remove(&self, addr: usize) -> bool {
-        let t = &mut *self.table.get();
+        Self::t_remove(&mut *self.table.get(), addr)
+    }
+    pub fn is_quarantined(&self, addr: usize) -> bool {
+        unsafe { Self::t_has(&*self.qtable.get(), addr) }
+    }
+    fn t_has(t: &[usize; TABLE_SIZE], addr: usize) -> bool {
         let mut i = Self::slot(addr);
         loop {
             if t[i] == addr {
-                t[i] = TOMB;
                 return true;
             }
             if t[i] == 0 {
@@ -61,6 +59,46 @@ impl QAlloc {
             }
             i = (i + 1) & (TABLE_SIZE - 1);
         }
+    }
+    fn t_insert(t: &mut [usize; TABLE_SIZE], addr: usize) {
+        let mut i = Self::slot(addr);
+        loop {
+            if t[i] == 0 {
+                t[i] = addr;
+                return;
+            }
+            i = (i + 1) & (TABLE_SIZE - 1);
+        }
+    }
+    /// linear probing with backward-shift deletion (no tombstones, so lookups stay short forever)
+    fn t_remove(t: &mut [usize; TABLE_SIZE], addr: usize) -> bool {
+        let mask = TABLE_SIZE - 1;
+        let mut i = Self::slot(addr);
+        loop {
+            if t[i] == addr {
+                break;
+            }
+            if t[i] == 0 {
+                return false;
+            }
+            i = (i + 1) & mask;
+        }
+        let mut j = i;
+        loop {
+            j = (j + 1) & mask;
+            if t[j] == 0 {
+                break;
+            }
+            let k = Self::slot(t[j]);
+            // can t[j] move into the hole at i?  only if its home slot k is not in (i, j]
+            let in_range = if i <= j { i < k && k <= j } else { i < k || k <= j };
+            if !in_range {
+                t[i] = t[j];
+                i = j;
+            }
+        }
+        t[i] = 0;
+        true
     }
 }
 
@@ -81,13 +119,20 @@ unsafe impl GlobalAlloc for QAlloc {
         }
         let q = QUARANTINE_SIZE.load(Ordering::Relaxed);
         if q != 0 && layout.size() == q {
+            if Self::t_has(&*self.qtable.get(), p as usize) {
+                // freed twice by the program: do not hand it to the system allocator a second time
+                DOUBLE_FREE.fetch_add(1, Ordering::Relaxed);
+                return;
+            }
             std::ptr::write_bytes(p, 0xDE, layout.size());
+            Self::t_insert(&mut *self.qtable.get(), p as usize);
             let ring = &mut *self.ring.get();
             let pos = RING_POS.fetch_add(1, Ordering::Relaxed) % RING_SIZE;
             let old = ring[pos];
             ring[pos] = (p as usize, layout.size(), layout.align());
             QUARANTINED.fetch_add(1, Ordering::Relaxed);
             if old.0 != 0 {
+                Self::t_remove(&mut *self.qtable.get(), old.0);
                 System.dealloc(old.0 as *mut u8, Layout::from_size_align_unchecked(old.1, old.2));
             }
             return;
@@ -116,6 +161,9 @@ pub fn untracked<R>(f: impl FnOnce() -> R) -> R {
     let r = f();
     TRACK.store(prev, Ordering::Relaxed);
     r
+}
+pub fn take_double_frees() -> usize {
+    DOUBLE_FREE.swap(0, Ordering::Relaxed)
 }
 pub fn live() -> usize {
     LIVE.load(Ordering::Relaxed)
